@@ -350,7 +350,7 @@ def nontrivial(case, real):
 
 def run(tier):
   return family.run_check(
-      'C12', tier, lean_module='C12', cases=cases, execute=execute, compare=compare,
+      'C12', tier, lean_module='C12', level='translation_validation', cases=cases, execute=execute, compare=compare,
       oracle=oracle, classify=lambda c, f: f.get('class'), nontrivial=nontrivial, widen=None,
       floor_nontrivial=0.3, time_budget=240 if tier == 'quick' else 1500,
       extra_coverage={'rule': 'random configurations (Config / Partial, ArgFactory inside Partial, tags on '
